@@ -720,7 +720,8 @@ LocalExit:
                     else
                         lexStringLiteral(tk, ch);
                 }
-                else if (yychar_ == '\'') {
+                else if (ch != 'R'
+                            && yychar_ == '\'') {
                     yyinput();
                     lexCharacterConstant(tk, ch);
                 }
